@@ -1,7 +1,7 @@
 (* C09 Every next() call terminates, makes progress, and never panics. *)
 From LexVerif Require Import Base CharClass RangeMap Regex Spec SpecExec LexSpec Nfa Dfa NfaToDfa NfaSem Codegen
      Runtime ScanIface RulesetSem Driver SpecDef ClassAlgProofs RuntimeProofs RuntimeLemmas ScanOkProofs
-     RulesetSemProofs LexSpecProofs LexSpecFacts EndToEnd EndToEndModel Instance Harness.
+     RulesetSemProofs LexSpecProofs LexSpecFacts SpecInvariants EndToEnd EndToEndModel Instance Harness.
 From LexVerif.Gen Require Import GenTables GenConsts.
 
 (* with fuel quadratic in the remaining input no call runs out of fuel and no Panic outcome
@@ -39,6 +39,29 @@ Theorem c09_match_progress : forall (benv : builtin_env) rules w r k e,
     (forall r' k' e', In r' rules -> candidate benv r' w k' e' -> le_ke (k', e') (k, e)) /\
     (forall j r', j < i -> nth_error rules j = Some r' -> ~ candidate benv r' w k e).
 Proof. exact select_some. Qed.
+
+(* a lexer over n characters yields at most n+1 items ... *)
+Theorem c09_items_bound : forall (benv : builtin_env) (width : N -> N) (tab_width : N) (T E U : Type)
+    (rss : list (list crule)) (actions : nat -> action T E U) (n : nat) (s : sstate U)
+    (r : list (option (item T E))),
+  spec_run benv width tab_width T E U rss actions n s r ->
+  length (filter (fun o : option (item T E) => match o with Some _ => true | None => false end) r)
+  <= length (s_rest U s) + 1.
+Proof. exact spec_run_items_bound. Qed.
+
+(* ... and runs at most n+1 actions (counted by instrumenting the action functions) *)
+Theorem c09_actions_bound : forall (benv : builtin_env) (width : N -> N) (tab_width : N) (T E U : Type)
+    (rss : list (list crule)) (actions : nat -> action T E U) (whole : list N) (u : U) (n : nat)
+    (r : list (option (item T E))) (s' : sstate (nat * U)),
+  spec_run_st benv width tab_width T E (nat * U) rss (count_actions T E U actions) n
+              (s_init (nat * U) whole (0, u)) r s' ->
+  fst (s_user (nat * U) s') <= length whole + 1.
+Proof. exact spec_run_actions_bound. Qed.
+
+(* a selected match consumes at least one character or is the end-of-input match (any rules) *)
+Theorem c09_select_shape : forall (benv : builtin_env) (rules : list crule) (w : list N) (r : crule) (k : nat) (e : bool),
+  select benv rules w = Some (r, (k, e)) -> k <= length w /\ (if e then k = length w else 1 <= k).
+Proof. exact select_shape. Qed.
 
 (* ------------------------------------------------------------------------------------------
    The run-time theorem (L7): for any program satisfying the scanner facts [scan_ok] (proved for
@@ -116,6 +139,9 @@ Proof. exact ruleset_sem_of_closed_wf_crule. Qed.
 Print Assumptions c09_no_panic_no_fuel.
 Print Assumptions c09_failure_progress.
 Print Assumptions c09_match_progress.
+Print Assumptions c09_items_bound.
+Print Assumptions c09_actions_bound.
+Print Assumptions c09_select_shape.
 Print Assumptions c09_next_simulates.
 Print Assumptions c09_stream.
 Print Assumptions c09_compiled_scan_ok.
